@@ -89,7 +89,7 @@ outputs so far (drop, duplicate, reorder, alter, inject are all instances).  If 
 connections report completion, each accepted exactly the messages and ChangeCipherSpec signals
 the other sent. -/
 theorem C03_both_complete_same_transcript (hk : k.ok = true) (hf : f.sound = true) (att : Attacker) (n : Nat) :
-    let g := Global.run k f W att n (Global.init k W)
+    let g := Global.run k f W att n (Global.init k f W)
     g.c.status = .done → g.s.status = .done →
     FramedLogs g.c.hs g.s.hs → SecretMaster k g.c.hs g.s.hs →
     SameTranscript (logOf g.c.hs) (logOf g.s.hs) := by
@@ -127,7 +127,7 @@ def forwarder : Attacker where
       | none => none
 
 def exRun : Global symPrims :=
-  Global.run tlcpCodes tlcpFlags exWorld forwarder 40 (Global.init tlcpCodes exWorld)
+  Global.run tlcpCodes tlcpFlags exWorld forwarder 40 (Global.init tlcpCodes tlcpFlags exWorld)
 
 set_option maxRecDepth 100000 in
 example : exRun.c.status = .done ∧ exRun.s.status = .done ∧ exRun.c.hs.log.length = 10 ∧
@@ -149,7 +149,7 @@ def flipper : Attacker where
 
 set_option maxRecDepth 100000 in
 example :
-    let g := Global.run tlcpCodes tlcpFlags exWorld flipper 40 (Global.init tlcpCodes exWorld)
+    let g := Global.run tlcpCodes tlcpFlags exWorld flipper 40 (Global.init tlcpCodes tlcpFlags exWorld)
     g.c.status ≠ .done ∧ g.s.status ≠ .done := by
   decide
 
@@ -198,15 +198,120 @@ def padder : Attacker where
 
 set_option maxRecDepth 100000 in
 example :
-    let g := Global.run tlcpCodes lossyFlags lossyWorld padder 40 (Global.init tlcpCodes lossyWorld)
+    let g := Global.run tlcpCodes lossyFlags lossyWorld padder 40 (Global.init tlcpCodes lossyFlags lossyWorld)
     g.c.status = .done ∧ g.s.status = .done ∧ acceptedOf g.c.hs.log ≠ sentOf g.s.hs.log := by
   decide
 
 -- … and with the flag as extracted from this tree the same attacker is refused
 set_option maxRecDepth 100000 in
 example :
-    let g := Global.run tlcpCodes tlcpFlags lossyWorld padder 40 (Global.init tlcpCodes lossyWorld)
+    let g := Global.run tlcpCodes tlcpFlags lossyWorld padder 40 (Global.init tlcpCodes tlcpFlags lossyWorld)
     g.c.status ≠ .done ∧ g.s.status ≠ .done := by
+  decide
+
+/-! ### the ChangeCipherSpec signal is accepted, never inferred
+
+`C03_same_transcript_any_inputs` puts the ChangeCipherSpec signals of both histories in the same
+places.  That rests on the flag `ccsOnlyByRecord` (part of `TFlags.sound`): the read side changes
+its cipher state — and stops waiting for the ChangeCipherSpec — only when a ChangeCipherSpec
+record was received; a handshake record that arrives while the ChangeCipherSpec is expected
+(datagram stack: a record that already carries the next epoch) is refused. -/
+
+/-- With the flag, no record switches the read cipher by itself: the implicit switch of the
+defect branch is the identity on every connection state and for every record. -/
+theorem C03_no_implicit_cipher_switch (hf : f.sound = true) (c : Conn P) (r : Record) :
+    Conn.implicitSwitch k f c r = c := by
+  have ft := flagsTrue hf
+  simp [Conn.implicitSwitch, ft.ccsOnlyByRecord]
+
+/-- … and a handshake record that arrives while the ChangeCipherSpec is expected ends the
+handshake with `unexpected_message` — whatever it contains and whichever keys protect it. -/
+theorem C03_handshake_record_refused_while_ccs_expected (hf : f.sound = true) (hr : f.hsRefusedWhenCCSExpected = true)
+    (c : Conn P) (data : Bytes) (he : c.hs.expectCCS = true) :
+    Conn.onHandshakeRecord k f W c data = Conn.failLocal k c k.aUnexpected := by
+  simp [Conn.onHandshakeRecord, hr, he]
+
+/-- The flag is necessary (the model mirrors the defect branch): when a handshake record switches
+the cipher state by itself, the attacker who removes the client's ChangeCipherSpec record — and
+nothing else — is not detected: both endpoints complete although the server accepted no
+ChangeCipherSpec where the client sent one. -/
+def implicitFlags : TFlags := { tlcpFlags with ccsOnlyByRecord := false }
+
+def ccsDropper : Attacker where
+  next := fun outs delivered =>
+    -- forward everything in order, except the client's ChangeCipherSpec record
+    let toS := (outs.filterMap (fun p => if p.1 = Role.client then some p.2 else none)).filter
+      (fun r => r.typ ≠ tlcpCodes.rtCCS)
+    let toC := outs.filterMap (fun p => if p.1 = Role.server then some p.2 else none)
+    let nS := (delivered.filter (fun p => p.1 = Role.server)).length
+    let nC := (delivered.filter (fun p => p.1 = Role.client)).length
+    match toS[nS]? with
+    | some r => some (Role.server, r)
+    | none =>
+      match toC[nC]? with
+      | some r => some (Role.client, r)
+      | none => none
+
+set_option maxRecDepth 100000 in
+example :
+    let g := Global.run tlcpCodes implicitFlags exWorld ccsDropper 40 (Global.init tlcpCodes implicitFlags exWorld)
+    g.c.status = .done ∧ g.s.status = .done ∧ acceptedOf g.s.hs.log ≠ sentOf g.c.hs.log := by
+  decide
+
+-- … and with the flag as extracted from this tree the same attacker stops the handshake
+set_option maxRecDepth 100000 in
+example :
+    let g := Global.run tlcpCodes tlcpFlags exWorld ccsDropper 40 (Global.init tlcpCodes tlcpFlags exWorld)
+    g.c.status ≠ .done ∧ g.s.status ≠ .done := by
+  decide
+
+/-! ### no tampering makes an endpoint panic
+
+`handshakeContext` panics when `handshake()` returned an error on a connection that is marked
+complete (or nil on one that is not).  The attacker may also CLOSE a transport at any moment
+(`Attacker.cut`): from then on the endpoint's writes fail, and `handshake()` returns that error.
+Because completion is marked as the last step of `handshake()`, behind the flush of the last
+flight (regenerated flag `doneMarkedLast`), the mark and the result always agree. -/
+
+/-- For ALL attackers (deliveries and transport closures decided from everything seen so far),
+all honest behaviours and any number of moves: neither endpoint panics. -/
+theorem C03_no_panic (hm : f.doneMarkedLast = true) (att : Attacker) (n : Nat) :
+    let g := Global.run k f W att n (Global.init k f W)
+    g.c.panics = false ∧ g.s.panics = false := by
+  intro g
+  have ok := global_run_ok (k := k) (f := f) (W := W) att n _ global_init_ok
+  exact ⟨ok.c.no_panic hm, ok.s.no_panic hm⟩
+
+/-- … and an endpoint is marked complete exactly when its handshake returned nil. -/
+theorem C03_marked_iff_completed (hm : f.doneMarkedLast = true) (att : Attacker) (n : Nat) :
+    let g := Global.run k f W att n (Global.init k f W)
+    (g.c.marked = true ↔ g.c.status = .done) ∧ (g.s.marked = true ↔ g.s.status = .done) := by
+  intro g
+  have ok := global_run_ok (k := k) (f := f) (W := W) att n _ global_init_ok
+  exact ⟨ok.c.mark hm, ok.s.mark hm⟩
+
+/-- The flag is necessary: when the server marks completion once the client's Finished verified,
+BEFORE its own ChangeCipherSpec + Finished are written, the attacker who forwards everything and
+closes the server's transport as soon as the client has written its Finished makes the server
+panic (its last write fails on a connection already marked complete). -/
+def earlyMarkFlags : TFlags := { tlcpFlags with doneMarkedLast := false }
+
+def cutter : Attacker where
+  next := forwarder.next
+  cut := fun outs _ r => r = Role.server ∧
+    (outs.filter (fun p => p.1 = Role.client ∧ p.2.typ = tlcpCodes.rtHS)).length ≥ 3
+
+set_option maxRecDepth 100000 in
+example :
+    let g := Global.run tlcpCodes earlyMarkFlags exWorld cutter 40 (Global.init tlcpCodes earlyMarkFlags exWorld)
+    g.s.panics = true ∧ g.s.status = .failed "closed" := by
+  decide
+
+-- … with the flag as extracted from this tree the same attacker gets an ordinary error
+set_option maxRecDepth 100000 in
+example :
+    let g := Global.run tlcpCodes tlcpFlags exWorld cutter 40 (Global.init tlcpCodes tlcpFlags exWorld)
+    g.s.panics = false ∧ g.s.status = .failed "closed" ∧ g.c.status = .running := by
   decide
 
 /-! ### identical views -/
@@ -295,7 +400,7 @@ the same state, hence the same views. -/
 theorem C03_record_version_unauthenticated (hv : f.versCheckedOnlyWhenHave = true) (c : Conn P) (r : Record) (v : Nat)
     (h0 : c.haveVers = false) (hr : r.vers < 4096) (hv' : v < 4096) :
     Conn.deliver k f W c { r with vers := v } = Conn.deliver k f W c r := by
-  unfold Conn.deliver Conn.headerCheck Conn.openRecord
+  unfold Conn.deliver Conn.headerCheck Conn.openRecord Conn.implicitSwitch
   simp [hv, h0, Nat.not_le.mpr hr, Nat.not_le.mpr hv']
 
 /-- … and once the version is agreed (`haveVers`), a record with any other version is refused
@@ -310,16 +415,16 @@ theorem C03_record_version_checked_after_hello (hv : f.versCheckedOnlyWhenHave =
 only the counter of useless records moves (at most `maxUselessRecords` in a row). -/
 theorem C03_warning_alert_ignored (c : Conn P) (desc : UInt8) (v : Nat)
     (hrun : c.status = .running) (hin : c.inOn = false) (hvers : v = k.vers)
-    (hd : desc.toNat ≠ k.aCloseNotify) (hw : k.aWarning < 256) (hne : k.rtAlert ≠ k.rtApp)
+    (hd : desc.toNat ≠ k.aCloseNotify) (hw : k.aWarning < 256) (hne : k.rtAlert ≠ k.rtApp) (hnh : k.rtAlert ≠ k.rtHS)
     (hlen : 2 ≤ k.maxCiphertext) (hkv : k.vers < 4096) (hret : c.retry + 1 ≤ k.maxUseless) :
     Conn.deliver k f W c ⟨k.rtAlert, v, [UInt8.ofNat k.aWarning, desc]⟩ = { c with retry := c.retry + 1 } := by
   have hwn : (UInt8.ofNat k.aWarning).toNat = k.aWarning := by
     rw [Gotlcp.Lemmas.Transcript.ofNat_toNat]; omega
-  unfold Conn.deliver Conn.headerCheck Conn.openRecord Conn.dispatch Conn.onAlert
+  unfold Conn.deliver Conn.headerCheck Conn.openRecord Conn.dispatch Conn.onAlert Conn.implicitSwitch
   subst hvers
   have h2 : ¬ (k.maxCiphertext < 2) := by omega
   have h3 : ¬ (k.maxUseless < c.retry + 1) := by omega
-  simp [hrun, hin, hd, hne, hwn, h2, h3, Nat.not_le.mpr hkv]
+  simp [hrun, hin, hd, hne, hnh, hwn, h2, h3, Nat.not_le.mpr hkv]
 
 /-! ### the secrecy assumption, discharged symbolically for the ECC flow -/
 
@@ -366,12 +471,24 @@ message enters the hash with the bytes that were received — `readHandshake` ha
 decoded and every type handed to `transcriptMsg` keeps its decoded bytes in `raw`); the stream
 stack keeps the record-layer guards (version compared only under `haveVers`, ChangeCipherSpec
 only when expected and with an empty handshake buffer, no handshake record while a
-ChangeCipherSpec is expected); the datagram stack keeps the cookie prelude (first ClientHello,
+ChangeCipherSpec is expected); on both stacks the read cipher state is switched only in the
+ChangeCipherSpec case of `readRecordOrCCS` (datagram stack: or by `readChangeCipherSpec` consuming
+the `deferredCCS` note that case left), `expectChangeCipherSpec` is cleared only there, and
+`handshake()` of both roles marks the connection complete as its last step, behind the flush of
+the last flight; the datagram stack keeps the cookie prelude (first ClientHello,
 HelloVerifyRequest) out of the transcript.  Nothing the extractor looks for is missing. -/
 theorem C03_facts :
     tlcpCodes.ok = true ∧ dtlcpCodes.ok = true ∧
     tlcpFlags.sound = true ∧ dtlcpFlags.sound = true ∧
     tlcpFlags.recordStrict = true ∧
+    -- the read cipher is switched by ChangeCipherSpec records only (in `sound`; spelled out), and
+    -- completion is marked as the last step of `handshake()` on both stacks
+    tlcpFlags.ccsOnlyByRecord = true ∧ dtlcpFlags.ccsOnlyByRecord = true ∧
+    tlcpFlags.doneMarkedLast = true ∧ dtlcpFlags.doneMarkedLast = true ∧
+    Facts.tlcp.trInCipherSwitches = [ccsCase] ∧
+    Facts.dtlcp.trInCipherSwitches = cipherSwitchSites ∧
+    Facts.tlcp.trExpectCcsAssigns = [] ∧ Facts.dtlcp.trExpectCcsAssigns = [ccsCase] ∧
+    Facts.dtlcp.trDeferredCcsSets = [ccsCase] ∧
     dtlcpFlags.versCheckedOnlyWhenHave = true ∧ dtlcpFlags.ccsNeedsExpect = true ∧
     dtlcpFlags.hsRefusedWhenCCSExpected = true ∧
     Facts.tlcp.trClientHandshake = ["W:hello:nil", "R:nil"] ∧
